@@ -70,8 +70,13 @@ def run(ctx) -> None:
     ctx.rule("R3", "gate content: parse with the pattern's engine, strict > under parse_version, uniqueness when requested")
     ctx.rule("R4", "parse_version_info (v2, v1) accepts only a full-length match")
     ctx.rule("R5", "prerequisite: the comparator's order laws and PEP 440 segment rules (C16/R1-R4)")
+    ctx.rule("R6", "prerequisite: the start version is the config value or the newest tag in scope (C09/R1-R2)")
     from sa.report import run_prerequisite
     run_prerequisite(ctx, "C16", ("R1", "R2", "R3", "R4"), "R5")
+    # 'the version it started from (the config value or the newest VCS tag, per tag scope)': how that version is chosen
+    # is C09's subject; its scope/selection rules are a precondition here (a failed listing must not read as 'no tags',
+    # the default-scope comparison and the newest-tag selection are made under parse_version)
+    run_prerequisite(ctx, "C09", ("R1", "R2"), "R6")
     gate = prog.function(GATE)
     n_gate = n_ann = n_eff = 0
     for root in ROOTS:
